@@ -47,7 +47,7 @@ type inject struct {
 	cancelAtOp   int
 	failCommitAt int
 	schedSeed    uint64
-	images       func(k int, info opInfo, img *memory.Database) // crash image after every commit
+	images       func(k int, info opInfo, mig int, img *memory.Database) // crash image after every commit (mig: migration executing)
 	logOps       bool
 	tag          string
 }
@@ -70,6 +70,7 @@ type startRes struct {
 	ctxErrAtEnd error
 	capped      bool
 	stages      []string // stage of every released operation (index j-1)
+	migCommits  map[int]int // applied commits by the migration that was executing (-1: the runner)
 }
 
 type env struct {
@@ -117,13 +118,21 @@ func (e *env) start(img *memory.Database, b binary, in inject) *startRes {
 		choose:       chooser(in.schedSeed),
 		maxOps:       200000,
 	}
-	if in.images != nil {
-		p.afterCommit = func(k int, info opInfo) { in.images(k, info, img.Copy()) }
+	var commitActive []int // migration executing when commit k was released (index k-1)
+	res.migCommits = map[int]int{}
+	p.afterCommit = func(k int, info opInfo) {
+		res.migCommits[commitActive[k-1]]++
+		if in.images != nil {
+			in.images(k, info, commitActive[k-1], img.Copy())
+		}
 	}
 	stageAtCancel := ""
 	p.onOp = func(j int, info opInfo, nParked, chosen int) {
 		if in.logOps {
 			c.Logf("%s op %d/%d of %d: %s (mig %d)", in.tag, j, chosen, nParked, info, res.rl.active)
+		}
+		if info.kind == opCommit {
+			commitActive = append(commitActive, res.rl.active)
 		}
 		st := stageOf(res.rl.active, info)
 		res.stages = append(res.stages, st)
@@ -174,6 +183,19 @@ func stageOf(active int, o opInfo) string {
 			return "blocktx.entry"
 		default:
 			return "blocktx.ingestor"
+		}
+	case idxPrune:
+		switch {
+		case o.kind == opCommit:
+			return "prune.commit"
+		case b == db.ChainHeight || b == db.L1Height || b == db.BlockHeadersByNumber:
+			return "prune.entry"
+		case b == db.StateUpdatesByBlockNumber:
+			return "prune.worker_state_update"
+		case b == db.BlockTransactions:
+			return "prune.restorer_transactions"
+		default:
+			return "prune.worker_history"
 		}
 	case idxNewState:
 		switch {
